@@ -39,7 +39,7 @@ def project(rows, types):
 
 
 PROBES_BY = {
-    "C13": ["ops", "reads", "chunked_reads", "multi_chunk_reads", "appends", "finalized", "buffer_flushes", "caller_reused_its_object", "dictionary_typed_parquet", "parquet_from_sliced_frame", "interleaved_iterators"],
+    "C13": ["ops", "reads", "chunked_reads", "multi_chunk_reads", "appends", "finalized", "buffer_flushes", "caller_reused_its_object", "dictionary_typed_parquet", "parquet_from_sliced_frame", "interleaved_iterators", "text_tables_copied"],
     "C14": ["ops", "merges", "tie_merges", "sortedness_faults", "abandoned_merges", "merges_with_projection", "projection_moves_score_column", "tiny_sortedness_faults"],
 }
 
@@ -108,6 +108,14 @@ def make_machine(which, base_dir):
             def write_whole(self, table, fmt, types, rows):
                 cols = [f"c{i}{t[0]}" for i, t in enumerate(types)]
                 self._do("write_whole", table=table, fmt=fmt, columns=cols, types=types, rows=project(rows, types))
+
+            @rule(table=st.sampled_from(NAMES), dest=st.sampled_from(NAMES),
+                  rows=st.lists(st.tuples(floats, ints), min_size=3, max_size=12),
+                  buffer_size=st.sampled_from([0, 0, 2, 3, 7]), kind=st.sampled_from(["DataFrame", "Dicts", "Records"]),
+                  chunk_size=st.sampled_from([1, 2, 3, 5, 1000]))
+            def copy_text_table(self, table, dest, rows, buffer_size, kind, chunk_size):
+                self._do("copy_text_table", table=table, dest=dest, rows=[list(r) for r in rows], buffer_size=buffer_size,
+                         kind=kind, chunk_size=chunk_size)
 
             @rule(table=st.sampled_from(NAMES), types=st.lists(st.sampled_from(TYPES), min_size=1, max_size=4),
                   rows=st.lists(st.lists(cell, min_size=4, max_size=4), min_size=0, max_size=25),
